@@ -277,6 +277,7 @@ func init() {
 		wireSequenceFrame(w, r, "C05", map[string]bool{"MatchPair": true})
 		// a key maps to exactly one packet: the parse phase rejects a key that occurs twice in one table (across pairs and lists)
 		visitorKeepsNoPacketState(w, r, "C05")
+		matchKeysCheckedWhereverCollected(w, r, "C05")
 		fieldsWithTheirPacket(w, wc, r, "C05")
 		r.refile("C12/namespace", "C05/match-keys-unique", func(sr *Report) { c12Namespaces(w, sr) }, func(o Obligation) bool {
 			return strings.Contains(o.Key, "match key")
